@@ -154,7 +154,8 @@ def g_methods(R, tier):
     implicitly a classmethod (data model 3.3.3.1), applied after the decorators"""
     pn = CL.pn()
     base = "pending_nodes.PendingFunctionDef.get_result"
-    for name in ("m", "__init_subclass__"):
+    # data model 3.3.3: __init_subclass__ and __class_getitem__ are class methods without a decorator
+    for name in ("m", "__init_subclass__", "__class_getitem__"):
         for is_method in (False, True):
             for uses_super in (False, True):
                 def run(c):
@@ -181,7 +182,7 @@ def g_methods(R, tier):
                     val = sem[3] if sem and sem[0] == "store" else None
                     # peel classmethod(...) and the decorator fold
                     wrapped = isinstance(val, ast.Call) and isinstance(val.func, ast.Name) and val.func.id == "classmethod" and len(val.args) == 1
-                    want_wrap = is_method and name == "__init_subclass__"
+                    want_wrap = is_method and name in ("__init_subclass__", "__class_getitem__")
                     R.check(f"{nm}/implicit-classmethod-iff-method-named-__init_subclass__/{sig}", wrapped == want_wrap, repr(val),
                             replay=dict(kind="classes"))
                     inner_val = val.args[0] if wrapped else val
@@ -201,6 +202,7 @@ GROUPS = {"class_shape": g_class_shape, "methods": g_methods, "class_header_orde
           "canary": c13.g_canary}
 
 CLASS_PROGRAMS = [
+    "class A:\n    def __class_getitem__(cls, item):\n        return (cls is A, item * 2)\nclass B(A):\n    pass\nr = (A[3], B['x'])\n",
     "seen = []\ndef traced(fn):\n    def w(*a, **k):\n        seen.append('hook')\n        return fn(*a, **k)\n    return w\n"
     "class Base:\n    @traced\n    def __init_subclass__(cls, **kw):\n        cls.tag = sorted(kw)\nclass Sub(Base, flag=1):\n    pass\n"
     "class B2:\n    @classmethod\n    def __init_subclass__(cls):\n        cls.hooked = True\nclass S2(B2):\n    pass\n"
